@@ -41,6 +41,78 @@ def diffReason (impl expected : String) : String :=
       else "answer differs"
     | _, _ => "unparsable implementation answer"
 
+/-! always-available histories (sub-stream switches): the offline clip's units are not known to the model, so
+they are checked structurally: [current parameters iff the unit has a key frame] ++ NAL units none of which is
+a parameter set / delimiter; the description must report the current parameters after every op. -/
+
+/-- `<hex>` or `<first byte hex>~<length>` for long NAL units (only the first byte matters then) -/
+def parseShortNalu (s : String) : Option Bytes :=
+  match s.splitOn "~" with
+  | [h] => Hex.decode h
+  | [h, _] => Hex.decode h
+  | _ => none
+
+def parseAAUnits (s : String) : Option (List (Option AU)) :=
+  if s == "-" then some []
+  else (s.splitOn "|").mapM fun u =>
+    if u == "n" then some none else ((u.splitOn ",").mapM parseShortNalu).map some
+
+def parseAA (impl : String) : Option (List (Option AU) × String) :=
+  match words impl with
+  | [u, p] =>
+    if u.startsWith "un=" && p.startsWith "p=" then
+      (parseAAUnits (u.drop 3).toString).map fun us => (us, (p.drop 2).toString)
+    else none
+  | _ => none
+
+def unitOK (isDrop isKey : NALU → Bool) (pre : List NALU) (known : Bool) (u : Option AU) : Bool :=
+  match u with
+  | none => true
+  | some nal =>
+    let expPre := if nal.any isKey && known then pre else []
+    nal.take expPre.length == expPre && (nal.drop expPre.length).all (fun n => !isDrop n)
+
+def unitsOK (st : St) (us : List (Option AU)) : Bool :=
+  match st with
+  | .h264 p => us.all (unitOK drop264 isIDR264 (pre264 p) (known264 p))
+  | .h265 p => us.all (unitOK drop265 isKey265 (pre265 p) (known265 p))
+  | _ => true
+
+def fmtPs (st : St) : String :=
+  match st with
+  | .h264 p => ",".intercalate ((ps264 p).map fmtParam)
+  | .h265 p => ",".intercalate ((ps265 p).map fmtParam)
+  | _ => ""
+
+def switchTo (st desc : St) : St :=
+  match st, desc with
+  | .h264 p, .h264 d => .h264 (switch264 p d).1
+  | .h265 p, .h265 d => .h265 (switch265Fixed p d).1
+  | s, _ => s
+
+def parseDesc (codec : String) (ps : List String) : Option St :=
+  match codec, ps.mapM parseParam with
+  | "h264", some [a, b] => some (.h264 ⟨a, b⟩)
+  | "h265", some [a, b, c] => some (.h265 ⟨a, b, c⟩)
+  | _, _ => none
+
+structure DS where
+  st : St := .none
+  codec : String := ""
+  /-- always-available history: parameters of the offline description -/
+  offline : Option St := none
+
+/-- `before`: state the units of the answer were written under; `after`: state once the op is complete -/
+def aaVerdict (before after : St) (impl : String) : String :=
+  match parseAA impl with
+  | none => "FAIL unparsable implementation answer: " ++ (impl.take 80).toString
+  | some (us, p) =>
+    if !unitsOK before us then
+      "FAIL a delivered unit is not [current parameters at a key frame] ++ NAL units without parameter sets/delimiters (parameters of a previous sub stream?)"
+    else if p != fmtPs after then
+      "FAIL the published description does not report the parameters of the current sub stream / most recent in-band ones"
+    else "ok"
+
 def step (st : St) (op impl : String) : St × DrvOut :=
   match words op with
   | "reset" :: codec :: _mode :: ps =>
@@ -80,4 +152,35 @@ def step (st : St) (op impl : String) : St × DrvOut :=
     | _, _ => (st, { model := "bad-op" })
   | _ => (st, { model := "bad-op" })
 
-def main (args : List String) : IO UInt32 := runDriver args St.none step
+def stepDS (d : DS) (op impl : String) : DS × DrvOut :=
+  match words op with
+  | "reset" :: codec :: "aa" :: ps =>
+    match parseDesc codec ps with
+    | some off => ({ st := off, codec, offline := some off }, { model := "ok" })
+    | none => ({}, { model := "bad-op" })
+  | "reset" :: _ =>
+    let r := step .none op impl
+    ({ st := r.1 }, r.2)
+  | _ =>
+    if d.offline.isSome && impl == "bad-op" then (d, { model := "bad-op" }) else
+    match d.offline, words op with
+    | some _, "aafill" :: _ => (d, { model := "-", spec := aaVerdict d.st d.st impl })
+    | some _, "aapub" :: ps =>
+      match parseDesc d.codec ps with
+      | some desc =>
+        let st' := switchTo d.st desc
+        ({ d with st := st' }, { model := "-", spec := aaVerdict d.st st' impl })
+      | none => (d, { model := "bad-op" })
+    | some off, ["aaoff"] =>
+      let st' := switchTo d.st off
+      ({ d with st := st' }, { model := "-", spec := aaVerdict st' st' impl })
+    | some _, "aau" :: args =>
+      if impl == "bad-op" then (d, { model := "bad-op" }) else
+      let r := step d.st ("w " ++ " ".intercalate args) impl
+      ({ d with st := r.1 }, r.2)
+    | some _, _ => (d, { model := "bad-op" })
+    | none, _ =>
+      let r := step d.st op impl
+      ({ d with st := r.1, offline := none }, r.2)
+
+def main (args : List String) : IO UInt32 := runDriver args ({} : DS) stepDS
